@@ -825,9 +825,16 @@ func runC18TCPAllocClose(t *testing.T, rng *rand.Rand, rec *sim.Rec, tier string
 			}()
 		}
 		accepted := make(chan error, 1)
+		timeouts := make(chan struct{}, 16)
 		go func() {
 			for {
 				c, err := alloc.AcceptTCP()
+				var ne net.Error
+				if err != nil && errors.As(err, &ne) && ne.Timeout() {
+					timeouts <- struct{}{} // a deadline passed: the application accepts again
+
+					continue
+				}
 				if err != nil {
 					accepted <- err
 
@@ -836,6 +843,20 @@ func runC18TCPAllocClose(t *testing.T, rng *rand.Rand, rec *sim.Rec, tier string
 				_ = c.Close()
 			}
 		}()
+		// deadlines on the accepting side: one that expires while Accept waits, then - with the
+		// goroutine back in Accept - one set from here to interrupt it at once
+		for k, d := range []time.Duration{3 * time.Millisecond, 0} {
+			_ = alloc.SetDeadline(time.Now().Add(d))
+			select {
+			case <-timeouts:
+			case <-time.After(3 * time.Second):
+				rec.Violate("stress-wedged", fmt.Sprintf("tcp-alloc-accept-deadline/%d", k), "Accept on the client's TCP allocation did not return within 3 s of a deadline set to now+%v from another goroutine (deadline number %d of this allocation)", d, k+1)
+
+				return
+			}
+			time.Sleep(2 * time.Millisecond)
+		}
+		_ = alloc.SetDeadline(time.Time{})
 		time.Sleep(time.Duration(1+rng.Intn(8)) * time.Millisecond)
 		_ = alloc.Close()
 		time.Sleep(3 * time.Millisecond)
